@@ -18,6 +18,11 @@
 using namespace mc;
 using mpt::linepart;
 
+// No allocation oracle is used for this property, so library calls are not entered into the
+// engine's allocation ledger (its tombstoned hash table degrades after ~10^5 tracked blocks).
+#undef LIB
+#define LIB(expr) (expr)
+
 const char *mc_id = "C18";
 const char *mc_rule = "input enumeration: all value sequences over {below,at-min,in1,in2,at-max,above} (L<=7 quick, <=9 thorough) and the same plus {just-below,just-above} "
                       "(L<=6 / <=7) for ranges [0,1] and [-1,1], reduced alphabets for degenerate [1,1], NULL and inverted [1,0]; run shapes prefix.fill^k.suffix, k=65531..65537; "
